@@ -56,6 +56,31 @@ pub struct Ctx {
     pub viols: Mutex<BTreeMap<String, Viol>>,
     pub evals: AtomicU64,
     pub root: String,
+    /// number of violation reports so far (all signatures)
+    pub total_viol: AtomicU64,
+}
+
+/// Process-level caps: a run that exceeds them ends as a machinery failure (exit 2), never as a verdict.
+fn spawn_watchdog(prop: &'static str, tier: Tier) {
+    let rss_cap_gb: u64 = std::env::var("VERIF_RSS_CAP_GB").ok().and_then(|s| s.parse().ok()).unwrap_or(24);
+    let wall_cap_s: u64 = std::env::var("VERIF_WALL_CAP_S").ok().and_then(|s| s.parse().ok()).unwrap_or(if tier.thorough() { 6 * 3600 } else { 3600 });
+    let start = Instant::now();
+    std::thread::spawn(move || {
+        loop {
+            std::thread::sleep(std::time::Duration::from_millis(500));
+            if start.elapsed().as_secs() > wall_cap_s {
+                eprintln!("MACHINERY: {prop} exceeded its wall-clock cap of {wall_cap_s} s");
+                std::process::exit(2);
+            }
+            if let Ok(t) = std::fs::read_to_string("/proc/self/statm")
+                && let Some(pages) = t.split_whitespace().nth(1).and_then(|x| x.parse::<u64>().ok())
+                && pages * 4096 > rss_cap_gb << 30
+            {
+                eprintln!("MACHINERY: {prop} exceeded its memory cap of {rss_cap_gb} GiB resident");
+                std::process::exit(2);
+            }
+        }
+    });
 }
 
 thread_local! {
@@ -116,6 +141,7 @@ impl Ctx {
     pub fn new(prop: &'static str, tier: Tier) -> Self {
         let seed = std::env::var("VERIF_SEED").ok().and_then(|s| s.parse().ok()).unwrap_or(0);
         let root = std::env::var("VERIF_ROOT").unwrap_or_else(|_| "/verif".into());
+        spawn_watchdog(prop, tier);
         Ctx {
             prop,
             tier,
@@ -124,6 +150,7 @@ impl Ctx {
             viols: Mutex::new(BTreeMap::new()),
             evals: AtomicU64::new(0),
             root,
+            total_viol: AtomicU64::new(0),
         }
     }
 
@@ -139,6 +166,7 @@ impl Ctx {
     /// the smallest `weight` case is kept per signature.
     pub fn violation(&self, sig: impl Into<String>, what: impl Into<String>, case: Value, weight: usize) {
         let sig = sig.into();
+        self.total_viol.fetch_add(1, Ordering::Relaxed);
         let mut g = self.viols.lock().unwrap();
         match g.get_mut(&sig) {
             Some(v) => {
@@ -153,6 +181,12 @@ impl Ctx {
                 g.insert(sig, Viol { what: what.into(), case, count: 1, weight });
             }
         }
+    }
+
+    /// So many violations have been reported that exploring further only costs time and memory: explorers stop
+    /// expanding (the run ends with the violations found so far; evidence says that it stopped early).
+    pub fn saturated(&self) -> bool {
+        self.total_viol.load(Ordering::Relaxed) > 300_000
     }
 
     pub fn n_viol_sigs(&self) -> usize {
